@@ -246,7 +246,7 @@ theorem namespaceForPrefixChain_eq_lookup (chain : List Tree) (p : Nat) :
     | none => simp [ih]
     | some ns => simp [bindingOf, Bool.and_comm]
 
-/-- `namespace_for_prefix` IS the nearest-declaration-wins binding (since /repo fb51e1d: only
+/-- `namespace_for_prefix` IS the nearest-declaration-wins binding (since /repo 6a9b742: only
     `xmlns=""` hides). -/
 theorem namespaceForPrefixChain_eq (chain : List Tree) (p : Nat) :
     namespaceForPrefixChain chain p = scopeSpecChain chain p := by
